@@ -82,6 +82,7 @@ type Interp struct {
 	PoolStale    int  // >0: pooled byte buffers carry this many stale symbolic cells
 	GoOrderAll   bool
 	CheckGlobalW bool // flag stores to objects created by package init
+	ConcretizeAlloc bool // fork on small symbolic []byte allocation sizes (decoders of untrusted input)
 	Concrete     map[string]uint64 // when non-nil: symbolic inputs take these concrete values (translator validation)
 	Params       map[string]int
 
@@ -1647,6 +1648,13 @@ func (it *Interp) makeSlice(fr *frame, x *ssa.MakeSlice) {
 	it.require(st.Sle(ln, cp), "makeslice: cap out of range")
 	it.allocCheck(cp, it.ncells(et))
 	n := it.boundOf(cp, "make")
+	if bt, isB := under(et).(*types.Basic); it.ConcretizeAlloc && !cp.IsConst() && n <= 300 && ln == cp && isB && bt.Kind() == types.Uint8 {
+		// small symbolic size: fork on its value so that cursors derived from it stay concrete
+		v := it.concretize(cp)
+		cp = it.c64(int64(v))
+		ln = cp
+		n = int(v)
+	}
 	o := it.newZeroObject(et, n, "")
 	fr.regs[x] = &Slice{Obj: o, Off: it.c64(0), Len: ln, Cap: cp, ECells: it.ncells(et)}
 }
